@@ -110,8 +110,36 @@ struct Ctx {
         sampU.resize(G.count());
         for (int k = 0; k < G.count(); k++) sampU[k] = G.inU(k, S);
         extent_fine = (int64_t)(G.g - 1) * S;
+        ux = uy = 0;
+    }
+    // lattice unit = ux (uy) grid units along x (y), gdstk scaling S_: used by the range bounds, where the
+    // operands are translated (OFFX, OFFY) and stretched so that single coordinates cross Clipper's ranges
+    int64_t ux = 0, uy = 0;
+    // Effective rounding grid in grid units.  gdstk's interface is double: beyond 2^53 grid units neither the
+    // operands nor the results can address single grid points (spacing 2^(e-52)), and Clipper computes
+    // intersection points in double as well.  For |coordinate| < 2^e the grid the statement can refer to is
+    // therefore max(1, 2^(e-52)) grid units; guard band and area slack are scaled by it (1 everywhere except in
+    // the range bounds translated to 2^61, where it is 2^10).  The exact regime keeps guard 0 / slack 0.
+    int64_t eps = 1;
+    void set_eps(int64_t max_abs_coordinate) {
+        int e = 0;
+        while (e < 63 && (max_abs_coordinate >> e) != 0) e++;
+        eps = e > 52 ? (int64_t)1 << (e - 52) : 1;
+    }
+    void init_units(const std::string& sub_, const Grid& G, int64_t ux_, int64_t uy_, int64_t S_) {
+        sub = sub_; grid = &G; S = S_; ux = ux_; uy = uy_;
+        sampU.resize(G.count());
+        for (int k = 0; k < G.count(); k++) {
+            int i = G.lo + k / G.n, j = G.lo + k % G.n;
+            sampU[k] = {(int64_t)(3 * i + 1) * (28 / G.r) * ux, (int64_t)(7 * j + 1) * (12 / G.r) * uy};
+        }
+        extent_fine = (int64_t)(G.g - 1) * std::max(ux, uy);
     }
 };
+// Translation applied between the oracle and gdstk: the oracle works in local coordinates (operands near
+// the origin, exact in int64/__int128), gdstk receives local + (OFFX, OFFY) and its results are translated
+// back.  Boolean operations are translation-covariant, so the expected region is computed locally.
+static int64_t OFFX = 0, OFFY = 0;
 
 // ------------------------------------------------------------------------------- counters
 struct Tally {
@@ -136,7 +164,7 @@ static Tally T;
 // ------------------------------------------------------------------------------- shapes
 static Polygon* make_gp(const Poly& fine, int64_t S) {
     Polygon* p = (Polygon*)allocate_clear(sizeof(Polygon));
-    for (auto& v : fine) p->point_array.append(Vec2{(double)v.x / (double)S, (double)v.y / (double)S});
+    for (auto& v : fine) p->point_array.append(Vec2{(double)(v.x + OFFX) / (double)S, (double)(v.y + OFFY) / (double)S});
     return p;
 }
 static void free_gp(Polygon* p) { p->clear(); free_allocation(p); }
@@ -243,7 +271,7 @@ static void operand_from_fine(const Ctx& cx, const std::vector<Poly>& fine, cons
     }
     for (int k = 0; k < cx.grid->count(); k++) {
         if (eg::covered(U, cx.sampU[k])) o.cover.set(k);
-        if (eg::dist_boundary(U, cx.sampU[k]) <= 3.0L * 84) o.near.set(k);
+        if (eg::dist_boundary(U, cx.sampU[k]) <= 3.0L * 84 * cx.eps) o.near.set(k);
         for (auto& p : U) if (eg::on_boundary(p, cx.sampU[k])) { o.onb.set(k); o.near.set(k); break; }
     }
 }
@@ -375,7 +403,7 @@ static void run_op(const Operand& A, const Operand& B, Operation op, int64_t S, 
                 if (pow2 ? s != rr : fabs(s - rr) > 8e-16 * fabs(s)) ok = false;
                 if (!ok && !r.offgrid) { r.offgrid = true; r.offgrid_what = fmt("polygon %d vertex %d coordinate %.17g is not a multiple of 1/%lld", (int)i, (int)k, c[d], (long long)S); }
             }
-            q[k] = {o[0], o[1]};
+            q[k] = {o[0] - OFFX, o[1] - OFFY};
         }
         r.nverts += (int)q.size();
         r.area2 += iabs(eg::area2(q));
@@ -391,7 +419,10 @@ static std::string polys_json(const std::vector<const Poly*>& ps, int64_t S) {
     std::vector<std::string> a;
     for (auto pp : ps) {
         std::vector<std::string> v;
-        for (auto& q : *pp) v.push_back("[" + jnum((double)q.x / (double)S) + "," + jnum((double)q.y / (double)S) + "]");
+        for (auto& q : *pp) {
+            if (OFFX || OFFY) v.push_back("[" + jint(q.x + OFFX) + "," + jint(q.y + OFFY) + "]");  // range bounds: scaling 1, absolute grid coordinates
+            else v.push_back("[" + jnum((double)q.x / (double)S) + "," + jnum((double)q.y / (double)S) + "]");
+        }
         a.push_back(jarr(v));
     }
     return jarr(a);
@@ -436,11 +467,12 @@ static std::vector<Poly> parse_polys(const std::string& s) {
     return out;
 }
 static std::string pair_replay(const Ctx& cx, const Operand& A, const Operand& B) {
-    return fmt("sub=%s S=%lld g=%d r=%d aa=%s ab=%s entry=%s", cx.sub.c_str(), (long long)cx.S, cx.grid->g, cx.grid->r, A.area_mode, B.area_mode, ENTRY_ARG[ENTRY]) + " A=" + polys_arg(A.fine) + " B=" + polys_arg(B.fine);
+    std::string units = cx.ux ? fmt(" ux=%lld uy=%lld ox=%lld oy=%lld", (long long)cx.ux, (long long)cx.uy, (long long)OFFX, (long long)OFFY) : std::string();
+    return fmt("sub=%s S=%lld g=%d r=%d aa=%s ab=%s entry=%s", cx.sub.c_str(), (long long)cx.S, cx.grid->g, cx.grid->r, A.area_mode, B.area_mode, ENTRY_ARG[ENTRY]) + units + " A=" + polys_arg(A.fine) + " B=" + polys_arg(B.fine);
 }
 static void report(const Ctx& cx, const char* cls, const Operand& A, const Operand& B, int op, const PairInfo& pi,
                    const OpResult* r, const std::string& detail, JFields extra = {}) {
-    JFields tags = {{"op", jstr(op >= 0 ? OPN[op] : "all")}, {"scaling", jint(cx.S)}, {"regime", jstr(pi.exact ? "exact" : "rounded")},
+    JFields tags = {{"op", jstr(op >= 0 ? OPN[op] : "all")}, {"scaling", jint(cx.S)}, {"translated", jbool(OFFX != 0 || OFFY != 0 || cx.ux != 0)}, {"regime", jstr(pi.exact ? "exact" : "rounded")},
                     {"relation", jstr(pi.relation())}, {"polys_a", jint((int64_t)A.fine.size())}, {"polys_b", jint((int64_t)B.fine.size())},
                     {"keyholed_input", jbool(A.keyholed || B.keyholed)}, {"entry", jstr(ENTRY_NAME[ENTRY])}};
     for (auto& e : extra) tags.push_back(e);
@@ -532,13 +564,13 @@ static bool check_pair(const Ctx& cx, const Operand& A, const Operand& B, int ke
             JFields tg = ectag;
             tg.push_back({"mismatch", jstr(nextra == 0 ? "missing_only" : nmissing == 0 ? "extra_only" : "missing_and_extra")});
             report(cx, "membership", A, B, o, pi, &r,
-                   fmt("%d sample point(s) of the expected region are not covered by the result, %d outside it are covered; e.g. (%.6f, %.6f): in A=%d, in B=%d, so (A %s B) %s it, but the result %s it", nmissing, nextra, (double)cx.sampU[bad].x / (84.0 * cx.S), (double)cx.sampU[bad].y / (84.0 * cx.S),
+                   fmt("%d sample point(s) of the expected region are not covered by the result, %d outside it are covered; e.g. (%.6f, %.6f): in A=%d, in B=%d, so (A %s B) %s it, but the result %s it", nmissing, nextra, ((double)cx.sampU[bad].x / 84.0 + (double)OFFX) / (double)cx.S, ((double)cx.sampU[bad].y / 84.0 + (double)OFFY) / (double)cx.S,
                        (int)A.cover[bad], (int)B.cover[bad], OPN[o], expect[bad] ? "covers" : "does not cover", badc ? "covers" : "does not cover"),
                    tg);
         }
         if (over >= 0) {
             opfail[o] = true;
-            report(cx, "overlap", A, B, o, pi, &r, fmt("sample point (%.6f, %.6f) is covered by more than one result polygon", (double)cx.sampU[over].x / (84.0 * cx.S), (double)cx.sampU[over].y / (84.0 * cx.S)), ectag);
+            report(cx, "overlap", A, B, o, pi, &r, fmt("sample point (%.6f, %.6f) is covered by more than one result polygon", ((double)cx.sampU[over].x / 84.0 + (double)OFFX) / (double)cx.S, ((double)cx.sampU[over].y / 84.0 + (double)OFFY) / (double)cx.S), ectag);
         }
         if (mixed >= 0) {
             opfail[o] = true;
@@ -548,7 +580,7 @@ static bool check_pair(const Ctx& cx, const Operand& A, const Operand& B, int ke
             for (size_t i = 0; i < sgnmask.size(); i++) if (sgnmask[i] == 3) which = (int)i;
             report(cx, "mixed_winding", A, B, o, pi, &r,
                    fmt("result polygon %d winds positively around some sample points and negatively around others (e.g. (%.6f, %.6f)): lobes of opposite orientation joined in one vertex list, so its shoelace area (%.6g, what Polygon::area() reports) is not the area it covers; not a key-hole polygon with a zero-width slit",
-                       which, (double)cx.sampU[mixed].x / (84.0 * cx.S), (double)cx.sampU[mixed].y / (84.0 * cx.S), 0.5 * (double)iabs(eg::area2(r.fine[which])) / ((double)cx.S * (double)cx.S)), tg);
+                       which, ((double)cx.sampU[mixed].x / 84.0 + (double)OFFX) / (double)cx.S, ((double)cx.sampU[mixed].y / 84.0 + (double)OFFY) / (double)cx.S, 0.5 * (double)iabs(eg::area2(r.fine[which])) / ((double)cx.S * (double)cx.S)), tg);
         }
         if (opfail[o]) ok = false;
         {
@@ -561,7 +593,7 @@ static bool check_pair(const Ctx& cx, const Operand& A, const Operand& B, int ke
     }
     // area identities (twice the area, fine units^2)
     {
-        auto slack = [&](int nvsum) { return pi.exact ? (i128)0 : (i128)2 * (A.nverts + B.nverts + nvsum + pi.ncross_all) * cx.extent_fine; };
+        auto slack = [&](int nvsum) { return pi.exact ? (i128)0 : (i128)2 * (A.nverts + B.nverts + nvsum + pi.ncross_all) * cx.extent_fine * cx.eps; };
         struct Id { const char* name; i128 lhs, rhs, sl; bool needs_ab; bool tainted; };
         i128 sab = A.area_slack2 + B.area_slack2;
         Id ids[3] = {{"|A or B| + |A and B| = |A| + |B|", ar[0] + ar[1], A.area2 + B.area2, slack(nv[0] + nv[1]) + sab, true, opfail[0] || opfail[1]},
@@ -620,12 +652,12 @@ static bool check_merge_via(const Ctx& cx, Operand& Gp, int entry) {
     if (mixed >= 0) { ok = false; report(cx, "mixed_winding", Gp, EMPTY, 0, pi, &r, "a polygon of the merged group winds positively around some sample points and negatively around others", {{"error_code", jint((int)r.ec)}, {"coverage_correct", jbool(bad < 0 && over < 0)}}); }
     T.samples_compared += (int)valid.count();
     T.samples_skipped += G.count() - (int)valid.count();
-    if (bad >= 0) { ok = false; report(cx, "membership", Gp, EMPTY, 0, pi, &r, fmt("sample point (%.6f, %.6f): union of the group %s it but the result does not agree", (double)cx.sampU[bad].x / (84.0 * cx.S), (double)cx.sampU[bad].y / (84.0 * cx.S), Gp.cover[bad] ? "covers" : "does not cover"), {{"error_code", jint((int)r.ec)}, {"mismatch", jstr(Gp.cover[bad] ? "missing" : "extra")}}); }
+    if (bad >= 0) { ok = false; report(cx, "membership", Gp, EMPTY, 0, pi, &r, fmt("sample point (%.6f, %.6f): union of the group %s it but the result does not agree", ((double)cx.sampU[bad].x / 84.0 + (double)OFFX) / (double)cx.S, ((double)cx.sampU[bad].y / 84.0 + (double)OFFY) / (double)cx.S, Gp.cover[bad] ? "covers" : "does not cover"), {{"error_code", jint((int)r.ec)}, {"mismatch", jstr(Gp.cover[bad] ? "missing" : "extra")}}); }
     if (over >= 0) { ok = false; report(cx, "overlap", Gp, EMPTY, 0, pi, &r, "a sample point is covered by more than one result polygon", {{"error_code", jint((int)r.ec)}}); }
     Gp.area_ok = ok;
     Gp.area_mode = "merge";
     Gp.area2 = r.area2;
-    Gp.area_slack2 = pi.exact ? (i128)0 : (i128)2 * (Gp.nverts + r.nverts + pi.ncross_all) * cx.extent_fine;
+    Gp.area_slack2 = pi.exact ? (i128)0 : (i128)2 * (Gp.nverts + r.nverts + pi.ncross_all) * cx.extent_fine * cx.eps;
     if (VERBOSE) fprintf(stderr, "  [%s] union of the group: %zu polygon(s), 2*area=%s slack=%s ok=%d\n", ENTRY_NAME[ENTRY], r.fine.size(), i128s(Gp.area2).c_str(), i128s(Gp.area_slack2).c_str(), (int)ok);
     return ok;
 }
@@ -821,6 +853,79 @@ static void chain_bound(const std::string& sub, const std::string& desc, const s
              ok ? nN * 4 * (mode == 2 ? 2 : 1) + nN * nD * orders * 4 : 0, {{"wall_s", jnum(now() - t0)}});
 }
 
+// "range quadrant" dimension.  Clipper switches its slope arithmetic from 64 to 128 bits when any coordinate
+// of a run exceeds 2^30-1 in absolute value (RangeTest: four separate comparisons, +x, -x, +y, -y) and refuses
+// coordinates beyond 2^62-1.  The lattice is stretched (ux, uy grid units per lattice step, gdstk scaling 1) and
+// translated (ox, oy) so that a chosen subset of the four directions is large; with steps of 2^29 and 2^33 the
+// edge vectors are up to 2^30 x 2^34 and their 64-bit cross products wrap modulo 2^64 (2^30 * 2^34 = 2^64 == 0),
+// so a run that wrongly stays in 64-bit mode judges real corners collinear.  The oracle is the usual one,
+// evaluated in local coordinates (see OFFX/OFFY).
+struct RangeCfg { const char* name; int64_t ux, uy, ox, oy; };
+struct RangeSide {
+    std::vector<std::vector<Poly>> fine;
+    std::vector<std::vector<Polygon*>> gp;
+    std::vector<Operand> ops;
+    std::vector<signed char> merged;
+    void build(const Ctx& cx, Side& sd) {
+        size_t n = sd.items.size();
+        fine.assign(n, {}); gp.assign(n, {}); ops.assign(n, Operand()); merged.assign(n, 0);
+        for (size_t k = 0; k < n; k++) {
+            int idx[2] = {sd.items[k].i, sd.items[k].j};
+            for (int t = 0; t < 2; t++) {
+                if (idx[t] < 0) continue;
+                Poly p = sd.set->lat[idx[t]];
+                for (auto& v : p) { v.x *= cx.ux; v.y *= cx.uy; }
+                fine[k].push_back(p);
+            }
+            for (auto& p : fine[k]) gp[k].push_back(make_gp(p, cx.S));
+            operand_from_fine(cx, fine[k], gp[k], ops[k]);
+        }
+    }
+    const Operand& get(const Ctx& cx, size_t k) {
+        if (ops[k].fine.size() > 1 && !merged[k]) { check_merge(cx, ops[k]); merged[k] = 1; }
+        return ops[k];
+    }
+    void release() { for (auto& g : gp) for (auto p : g) free_gp(p); gp.clear(); }
+};
+static void range_bound(const std::string& sub, const std::string& desc, Side& SA, Side& SB, const Grid& G, const RangeCfg& cf, bool overloads) {
+    int64_t ridx;
+    bool rep = replay_idx_here(sub, ridx);
+    if (rep && ridx < 0) return;
+    if (!rep && skip_bound(sub, desc)) return;
+    Ctx cx;
+    cx.init_units(sub, G, cf.ux, cf.uy, 1);
+    OFFX = cf.ox; OFFY = cf.oy;
+    cx.set_eps(std::max(std::abs(cf.ox), std::abs(cf.oy)) + 2 * std::max(cf.ux, cf.uy));
+    RangeSide RA, RB;
+    RA.build(cx, SA);
+    RB.build(cx, SB);
+    int64_t nA = (int64_t)SA.items.size(), nB = (int64_t)SB.items.size();
+    auto body = [&](int64_t a) {
+        const Operand& A = RA.get(cx, a);
+        for (int64_t b = 0; b < nB; b++) {
+            const Operand& B = RB.get(cx, b);
+            bool want = a == nA / 3 && b == nB / 2;
+            T.m["cases_translated"] += 4;
+            check_pair(cx, A, B, -1, NULL, want);
+            if (overloads)
+                for (int e = E_PA; e <= E_PP; e++)
+                    if (entry_applies(e, A, B)) { T.m["cases_translated"] += 4; check_pair(cx, A, B, -1, NULL, false, e); }
+        }
+        T.flush();
+    };
+    if (rep) { body(ridx); }
+    else {
+        double t0 = now();
+        bool ok = parallel_for(*R, nA, body, [&](int64_t a) { return jobj({{"bound", jstr(sub)}, {"A_index", jint(a)}, {"note", jstr("crash/hang while executing one of the pairs of this chunk")}}); },
+                               [&](int64_t a) { return fmt("sub=%s idx=%lld", sub.c_str(), (long long)a); }, PFOptions{300, sub, true});
+        R->bound(sub, desc + fmt("  [%s: x = %lld + %lld*i, y = %lld + %lld*j grid units for lattice point (i,j), gdstk scaling 1, effective grid %lld; %lld x %lld operand pairs x 4 operations%s, %d sample points]", cf.name, (long long)cf.ox,
+                                 (long long)cf.ux, (long long)cf.oy, (long long)cf.uy, (long long)cx.eps, (long long)nA, (long long)nB, overloads ? " x every applicable entry point" : "", G.count()), ok, ok ? nA * nB * 4 : 0, {{"wall_s", jnum(now() - t0)}});
+    }
+    RA.release();
+    RB.release();
+    OFFX = OFFY = 0;
+}
+
 // offset(const Polygon&, ...) is an inline wrapper that forwards to offset(array, ...); its geometry belongs
 // to C13, here only the forwarding is judged: for every shape, distance, join, tolerance and union flag the
 // wrapper must return exactly (error code, polygon count, vertex lists bit for bit) what the array function
@@ -888,7 +993,14 @@ static void replay_pair() {
     int64_t S = atoll(R->rarg("S").c_str());
     Grid G(atoi(R->rarg("g").c_str()), atoi(R->rarg("r").c_str()));
     Ctx cx;
-    cx.init(R->rarg("sub"), G, S);
+    if (!R->rarg("ux").empty()) {
+        cx.init_units(R->rarg("sub"), G, atoll(R->rarg("ux").c_str()), atoll(R->rarg("uy").c_str()), S);
+        OFFX = atoll(R->rarg("ox").c_str());
+        OFFY = atoll(R->rarg("oy").c_str());
+        cx.set_eps(std::max(std::abs(OFFX), std::abs(OFFY)) + 2 * std::max(cx.ux, cx.uy));
+        fprintf(stderr, "operands are given in local grid coordinates; gdstk receives them translated by (%lld, %lld)\n", (long long)OFFX, (long long)OFFY);
+    } else
+        cx.init(R->rarg("sub"), G, S);
     std::vector<Poly> fa = parse_polys(R->rarg("A")), fb = parse_polys(R->rarg("B"));
     std::vector<Polygon*> ga, gb;
     for (auto& p : fa) ga.push_back(make_gp(p, S));
@@ -970,6 +1082,16 @@ int main(int argc, char** argv) {
 
     if (run.replaying() && run.rarg("idx").empty()) { run.internal_error("replay args understood: 'A=.. B=.. S=.. g=.. r=..' or 'sub=.. idx=..'"); return run.finish(); }
 
+    // range quadrants: which of +x, -x, +y, -y exceed Clipper's 2^30 switch (L: strips of 2^30 x 2^34 grid units whose
+    // 64-bit cross products wrap) or come close to its 2^62 limit (H: offset 2^61, lattice step 2^54)
+    const int64_t u29 = 1ll << 29, u33 = 1ll << 33, u54 = 1ll << 54, o61 = 1ll << 61;
+    const RangeCfg RANGE_L[8] = {{"L.-y", u29, u33, -u29, -2 * u33}, {"L.+y", u29, u33, -u29, 0}, {"L.-x", u33, u29, -2 * u33, -u29}, {"L.+x", u33, u29, 0, -u29},
+                                 {"L.-x-y", u33, u33, -2 * u33, -2 * u33}, {"L.+x+y", u33, u33, 0, 0}, {"L.+x-y", u33, u33, 0, -2 * u33}, {"L.-x+y", u33, u33, -2 * u33, 0}};
+    const RangeCfg RANGE_H[5] = {{"H.-y", u54, u54, 0, -o61 - 2 * u54}, {"H.+y", u54, u54, 0, o61}, {"H.-x", u54, u54, -o61 - 2 * u54, 0}, {"H.+x", u54, u54, o61, 0}, {"H.-x-y", u54, u54, -o61 - 2 * u54, -o61 - 2 * u54}};
+    Side g3grpCC;  // two-shape groups {ccw T_i, ccw T_j}, i<=j
+    g3grpCC.set = &g3sf;
+    for (int i = 0; i < nC3; i++)
+        for (int j = i; j < nC3; j++) g3grpCC.items.push_back({i, j});
     const char* D_SINGLE = "g=3, n<=4, start-fixed shapes, both orientations: every ordered pair of single shapes";
     const char* D_CHAIN = "C = A not B for every nested pair (A: g=4 n<=4 start-fixed, B on the inner 2x2 lattice, strictly inside A), all four operations on (A,B) checked";
     if (!TH) {
@@ -980,6 +1102,12 @@ int main(int argc, char** argv) {
         product_bound("q.single.g3n4_x_tri.s2p40", "g=3 start-fixed: every n<=4 shape x every triangle", g3all, g3tri, G3, S40, 2000, true);
         product_bound("q.group_a.g3tri.s1000", "A = every two-shape group {ccw T_i, ccw T_j} and {ccw T_i, cw T_j}, i<=j, of g=3 start-fixed triangles, B = every counter-clockwise g=3 triangle", g3grpH, g3triCCW, G3, S1000, 2000, true);
         product_bound("q.group_b.g3tri.s1000", "A = every clockwise g=3 start-fixed triangle, B = every two-shape group {ccw T_i, ccw T_j} and {ccw T_i, cw T_j}, i<=j", g3triCW, g3grpH, G3, S1000, 3000, true);
+        for (int c = 0; c < 8; c++)
+            range_bound(std::string("q.range.single.") + RANGE_L[c].name, "g=3 start-fixed: every n<=4 shape x every triangle, stretched and translated", g3all, g3tri, G3, RANGE_L[c], c == 0);
+        for (int c = 0; c < 4; c++)
+            range_bound(std::string("q.range.group_a.") + RANGE_L[c].name, "A = every two-shape group {ccw T_i, ccw T_j}, i<=j, B = every counter-clockwise g=3 triangle, stretched and translated", g3grpCC, g3triCCW, G3, RANGE_L[c], false);
+        for (int c = 0; c < 5; c++)
+            range_bound(std::string("q.range.single.") + RANGE_H[c].name, "g=3 start-fixed: every triangle x every triangle, translated to 2^61", g3tri, g3tri, G3, RANGE_H[c], false);
         offset_overload_bound("q.overload.offset.g3n4.s1000", g3sf, S1000);
         chain_bound("q.chain.g4.s1000", std::string(D_CHAIN) + "; then C op D for every counter-clockwise g=4 start-fixed triangle D", nest4, 0, g4sf, in4, &g4triCCW, 1, G4, S1000, 1, 2000);
         chain_bound("q.chain.g4.first_step.s1", D_CHAIN, nest4, 0, g4sf, in4, NULL, 1, G4f, S1, 32, 1);
@@ -1002,6 +1130,14 @@ int main(int argc, char** argv) {
         Side g3grpO = Side::groups(g3sf, 0, nT3, true);
 
         product_bound("t.single.g3n4.s1000", D_SINGLE, g3all, g3all, G3, S1000, 2000, true);
+        for (int c = 0; c < 8; c++)
+            range_bound(std::string("t.range.single.") + RANGE_L[c].name, "g=3 start-fixed: every n<=4 shape x every n<=4 shape, stretched and translated", g3all, g3all, G3, RANGE_L[c], c == 0);
+        for (int c = 0; c < 8; c++)
+            range_bound(std::string("t.range.group_a.") + RANGE_L[c].name, "A = every two-shape group {ccw T_i, ccw T_j} and {ccw T_i, cw T_j}, i<=j, B = every g=3 triangle, stretched and translated", g3grpH, g3tri, G3, RANGE_L[c], false);
+        for (int c = 0; c < 4; c++)
+            range_bound(std::string("t.range.group_b.") + RANGE_L[c].name, "A = every g=3 triangle, B = every two-shape group {ccw T_i, ccw T_j}, i<=j, stretched and translated", g3tri, g3grpCC, G3, RANGE_L[c], false);
+        for (int c = 0; c < 5; c++)
+            range_bound(std::string("t.range.single.") + RANGE_H[c].name, "g=3 start-fixed: every n<=4 shape x every n<=4 shape, translated to 2^61", g3all, g3all, G3, RANGE_H[c], false);
         offset_overload_bound("t.overload.offset.g3n4.s1000", g3sf, S1000);
         offset_overload_bound("t.overload.offset.g4n4.s2p20", g4sf, S20);
         product_bound("t.single.g3n4.s1", D_SINGLE, g3all, g3all, G3, S1, 2000, true);
